@@ -67,6 +67,9 @@ DBS = {
                  x=[0.004, 0.002], xu=1e-5, T=[673.15, 723.15], g=[0.0, 2000.0, 5000.0], yeq=4e-5, pdens=2000),
     'cuti': dict(kind='binary', src=('file', 'CuTi.tdb'), elements=['CU', 'TI'], phases=['FCC_A1', 'CU4TI'],
                  x=[0.019, 0.012], xu=0.001, T=[623.15, 673.15], g=[0.0, 500.0, 1000.0], yeq=2e-3, pdens=2000),
+    # solute that sorts before the solvent (AL < NI): BinaryThermodynamics reads the other composition index ('reverse')
+    'nial': dict(kind='binary', src=('datasets', 'NICRAL_TDB'), elements=['NI', 'AL'], phases=['FCC_A1', 'FCC_L12'],
+                 x=[0.16, 0.15], xu=0.03, T=[873.15, 973.15], g=[0.0, 200.0, 1000.0], yeq=1e-1, pdens=2000),
     'ni': dict(kind='multi', src=('datasets', 'NICRAL_TDB'), elements=['NI', 'CR', 'AL'], phases=['FCC_A1', 'FCC_L12'],
                x=[[0.08, 0.1], [0.06, 0.12]], xu=[0.08, 0.04], T=[1073.15, 1023.15], g=[0.0, 200.0], yeq=5e-2, pdens=500),
     'ams': dict(kind='multi', src=('file', 'AlMgSi.tdb'), elements=['AL', 'MG', 'SI'],
@@ -202,6 +205,9 @@ def reset(th):
     """Start of a history: the configuration of a fresh object (default method) and empty caches, through the
     public API only."""
     set_method(th, 'tangent')
+    if getattr(th, '_c09_icm', 'equilibrium') != 'equilibrium':
+        th.setInterfacialMethod('equilibrium')
+        th._c09_icm = 'equilibrium'
     th.clearCache()
 
 
@@ -241,8 +247,14 @@ def execute(th, db, sym):
             g = args.arr('gExtra', d['g'])
         elif gf == 'grev':
             g = args.arr('gExtra', d['g'][::-1])
+        # interfacial-composition method of the object: 'equilibrium' (default) or the first-order 'curvature' (token curvm)
+        icm = 'curvature' if 'curvm' in p else 'equilibrium'
+        if getattr(th, '_c09_icm', 'equilibrium') != icm:
+            th.setInterfacialMethod(icm)
+            th._c09_icm = icm
         xm, xp = th.getInterfacialComposition(T, g)
-        parts = [('xM', 'comp', _f(xm)), ('xP', 'comp', _f(xp))]
+        ccls = 'curv' if icm == 'curvature' else 'comp'
+        parts = [('xM', ccls, _f(xm)), ('xP', ccls, _f(xp))]
     elif kind == 'ic3':         # multicomponent interfacial composition (global equilibrium with Gibbs-Thomson)
         x, T, _ = _xT(db, p[1], args)
         g = args.arr('gExtra', DBS[db]['g']) if p[2] == 'garr' else float(DBS[db]['g'][1])
@@ -355,7 +367,7 @@ def sym_kind(sym):
     if p[0] == 'ic':
         # the temperature form selects the code path (one equilibrium for all Gibbs-Thomson energies / one per entry)
         return 'ic-' + {'T1': 'Tscalar', 'T2': 'Tscalar', 'Tsame': 'Tuniform', 'Tarr': 'Tarray'}[p[1]] + \
-            ('-garray' if p[2] in ('garr', 'grev') else '-gscalar')
+            ('-garray' if p[2] in ('garr', 'grev') else '-gscalar') + ('-curvature-method' if 'curvm' in p else '')
     return p[0]
 
 
@@ -504,7 +516,7 @@ def mixed_alphabet(db, quick):
     a = ['df|tangent|P1|keep', 'df|tangent|P4|keep', 'df|tangent|P2|drop', 'df|tangent|P5|keep',
          'df|approximate|P1|keep', 'df|approximate|P3|drop', 'df|sampling|P2|keep', 'df|curvature|P4|keep']
     if d['kind'] == 'binary':
-        a += ['ic|T1|g0', 'ic|T2|garr'] + ([] if quick else ['ic|Tarr|grev'])
+        a += ['ic|T1|g0', 'ic|T2|garr', 'ic|T1|garr|curvm'] + ([] if quick else ['ic|Tarr|grev'])
         a += ['dnkj|P1|keep', 'dnkj|arr3|drop', 'tracer|P3|keep', 'tracer|arr1|drop']
     else:
         a += ['curv|P1|keep', 'curv|P3|drop', 'growth|P2|keep', 'imp|P4|keep',
@@ -533,7 +545,8 @@ def batching_cases(db):
 
 def ic_batching_cases(db):
     return [('ic|T1|garr', ['ic|T1|g0', 'ic|T1|gs', None]), ('ic|Tsame|garr', ['ic|T1|g0', 'ic|T1|gs', None]),
-            ('ic|Tarr|garr', ['ic|T1|g0', 'ic|T2|gs', None])]
+            ('ic|Tarr|garr', ['ic|T1|g0', 'ic|T2|gs', None]),
+            ('ic|T1|garr|curvm', ['ic|T1|g0|curvm', 'ic|T1|gs|curvm', None]), ('ic|Tarr|garr|curvm', ['ic|T1|g0|curvm', 'ic|T2|gs|curvm', None])]
 
 
 def run_ic_batching(case):
